@@ -282,6 +282,13 @@ def check(an: Analysis) -> None:
         coro = c.args[0] if c.args else None  # type: ignore[union-attr]
         if not (isinstance(coro, ast.Call) and dotted(coro.func) == "self._function" and forwards_varargs(coro, va, kwa)):
             ob.fail(f, c, "the task does not run self._function(*args, **kwargs)")
+    # the future, the task and the timer of a call live on the loop that is running *this* call - looked up per call, not kept on
+    # the wrapper (which lives as long as the decorated function and may be called under another loop later)
+    for n in g.nodes:
+        if n.kind == "call" and an.callee(f, n.ast) in ("asyncio.AbstractEventLoop.create_future", "asyncio.AbstractEventLoop.create_task", "asyncio.AbstractEventLoop.call_later") and isinstance(n.ast.func, ast.Attribute):  # type: ignore[union-attr]
+            lo_ = d.origins(n.ast.func.value)  # type: ignore[union-attr]
+            if any(o.startswith("attr:self.") for o in lo_) or not any(o in ("call:asyncio.get_running_loop", "call:asyncio.get_event_loop") for o in lo_):
+                ob.fail(f, n.ast, "the call's future / task / timer are not created on the loop running this call (a loop remembered on the wrapper object outlives the loop it was taken from: later calls fail or never start the function)")
     rets = [n for n in g.nodes if n.kind == "return"]
     for r in rets:
         ob.inst(f, r.ast)
